@@ -157,7 +157,7 @@ def run_one(gw, base, rng):
     make_tree(src, rng, ["a b", "ü中", "x.txt", "empty", "deep", "l1", "l2", ".hidden"])
     nt = rng.randint(1, 3)
     failing = set()
-    r = TracingRSync(src)
+    r = TracingRSync(src + ("/" if rng.random() < 0.3 else ""))
     dests = []
     for t in range(1, nt + 1):
         d = os.path.join(base, f"dst{t}")
